@@ -62,7 +62,12 @@ CLAIMED['C04'] = dict(
          'path through the emitted try skeleton registers and deactivates its handler exactly once; C04.K4 every native and every '
          'Enumerate::next of laythe_lib that calls back into the program (24 units: call / each / reduce / sort / collect / the '
          'adaptor iterators ...) runs from MIR with callbacks summarised by "returns any value or raises": on every path on which a '
-         'callback raised the native ends in Call::Err (found and fixed F32: List.sort dropped its comparator\'s error).',
+         'callback raised the native ends in Call::Err (found and fixed F32: List.sort dropped its comparator\'s error) and an error '
+         'object the native built from its error class is raised, not returned (F43: list / tuple / map str); C04.K5 Vm::runtime_error '
+         'leaves every live stack slot of the raising frame unchanged (F36: the top local was overwritten by the error object); C04.K6 a '
+         'raise on a fiber that is evaluating the clauses of a handler discards that handler (F44: catch e: NotYetDefined hung); '
+         'C04.K1.handler_label_depth the real apply_stack_effects on try skeletons whose body ends in return / raise / jump with values '
+         'live: a catch label starts at the depth its PushHandler recorded (F41).',
     note='Trusted: rustc MIR printer, mirsym, abstract object identities (vmabs.py), uninterpreted is_subclass/class_of, Z3. '
          'Known design-level findings F5/F6 live in the lowering, outside these kernels.',
     ref='§4 C04')
@@ -76,8 +81,9 @@ CLAIMED['C02'] = dict(
          'arbitrary name-lookup answers: capture chains stay well formed (every Enclosing(k) names a capture that exists one level up, '
          'answers that need a capture name one that exists, every function between use and declaration carries it, module-level '
          'answers record nothing, capture counts match the capture lists); Compiler::child starts a nested function without the '
-         'module table, locals or captures, so enclosing locals shadow module names. The resolver pass (which locals become boxes) and '
-         'the emission per symbol state are not yet machine checked.',
+         'module table, locals or captures, so enclosing locals shadow module names; the implicit return of an initialiser reads self through its box when a '
+         'closure captured it (found and fixed F40: B().x undefined after init() { self.x = 1; let f = || self; }). The resolver pass '
+         '(which locals become boxes) and the emission per symbol state elsewhere are not yet machine checked.',
     note='Trusted: rustc MIR printer, mirsym, abstract object identities + identity-indexed heap arrays (vmabs.py), Z3. '
          'Captures / LyBox / Closure accessors are executed from laythe_core MIR.',
     ref='§4 C02')
